@@ -8,6 +8,11 @@ COMMON_ASSUMPTIONS = [
 ]
 
 
+OBJ_REAL = ["cglue-gen generated glue (vtables, C wrappers, trait impls on opaque objects, group casts) compiled from /repo", "cglue::trait_group containers", "cglue::boxed / arc as object containers"]
+OBJ_STUB = ["corpus implementors (stateful, logging, logged destructors)", "un-erased twin driven by direct trait calls as reference model", "simulated allocator"]
+OBJ_ASSUME = COMMON_ASSUMPTIONS + ["the corpus (7 single-trait families, 4 groups with 1-4 optional traits, 30 implementor types, Box/&mut/&/CArcSome containers, no / reference-counted / plain contexts) stands for 'all programs in the grammar'; shapes the generator rejects (Option<Self::Assoc> returns) are outside it"]
+
+
 def J(engine, quick, thorough, package="primsim", **kw):
     return Job(package, engine, quick, thorough, **kw)
 
@@ -30,7 +35,18 @@ for _e in ("arc", "vec", "feed", "cbox"):
     C16_JOBS.append(J(_e, 6000, 300000, release_in=(), env=CP, label=_e + "-cparty-debug"))
     C16_JOBS.append(J(_e, 6000, 300000, release_in=("quick", "thorough"), env=CP, label=_e + "-cparty-release"))
 
-ALL_JOBS = [ARC, VEC, CSTR, WAKER, FEED, CBOX] + C16_JOBS
+def OBJ(focus, quick, thorough):
+    return Job("objsim", "obj", quick, thorough, env={"SIM_FOCUS": focus}, label="obj-" + focus)
+
+
+OBJ_CALLS = OBJ("calls", 20000, 1000000)
+OBJ_LIFE = OBJ("life", 20000, 1000000)
+OBJ_CTX = OBJ("ctx", 20000, 1000000)
+OBJ_CASTS = OBJ("casts", 20000, 1000000)
+OBJ_INTRES = OBJ("intres", 20000, 1000000)
+OBJ_MIXED = OBJ("mixed", 10000, 500000)
+
+ALL_JOBS = [ARC, VEC, CSTR, WAKER, FEED, CBOX] + C16_JOBS + [OBJ_CALLS, OBJ_LIFE, OBJ_CTX, OBJ_CASTS, OBJ_INTRES, OBJ_MIXED]
 
 PROPS = {
     "C10": {
@@ -68,6 +84,39 @@ PROPS = {
         "real": ["cglue::boxed, arc, vec, slice, callback, iter, option, result (layouts and the extern \"C\" functions stored in them)"],
         "stub": ["the C party: #[repr(C)] view structs and operations transcribed from examples/pregen-headers/bindings.h and cglue-bindgen/src/types.rs", "foreign-manufactured values with the simulator's own functions"],
         "assumptions": COMMON_ASSUMPTIONS + ["the transcription of the published header into view structs is faithful (it is short and reviewed against bindings.h)", "both debug and release builds of the harness are run"],
+    },
+    "C01": {
+        "jobs": [OBJ_CALLS, OBJ_MIXED],
+        "accept": lambda job, cls, site, msg: cls in ("obj.wrong_method", "obj.wrong_instance", "obj.call_count", "obj.result_mismatch", "obj.state_mismatch")
+        or (job == "obj-calls" and (cls.startswith("crash.") or cls == "obj.panic")),
+        "real": OBJ_REAL, "stub": OBJ_STUB, "assumptions": OBJ_ASSUME,
+    },
+    "C02": {
+        "jobs": [OBJ_CALLS],
+        "accept": lambda job, cls, site, msg: cls in ("obj.args_altered", "obj.address_mismatch")
+        or (cls == "obj.result_mismatch" and (site.startswith(("s_", "r_")) or "::s_" in site or "::r_" in site)),
+        "real": OBJ_REAL, "stub": OBJ_STUB, "assumptions": OBJ_ASSUME + ["honest caveat (DESIGN.md section 3/C02): this property is about values; it is claimed because the call histories carry every auto-wrapped shape across the boundary with stateful callee-side digests and address logs"],
+    },
+    "C06": {
+        "jobs": [OBJ_LIFE, OBJ_MIXED, CBOX],
+        "accept": lambda job, cls, site, msg: cls.startswith(("life.", "box.", "layout.box")) or (job in ("obj-life", "cbox") and (cls.startswith("crash.") or cls.endswith(".panic"))),
+        "real": OBJ_REAL + ["cglue::boxed (CBox, CSliceBox)"], "stub": OBJ_STUB, "assumptions": OBJ_ASSUME,
+    },
+    "C07": {
+        "jobs": [OBJ_CTX],
+        "accept": lambda job, cls, site, msg: cls.startswith("ctx.") or cls.startswith("crash."),
+        "real": OBJ_REAL, "stub": OBJ_STUB + ["context payload standing for libloading::Library: its destructor is the unload"],
+        "assumptions": OBJ_ASSUME + ["the 'released inside the call' clause is decided by a backtrace captured in the context payload's destructor (searching for a cglue_wrapped_ frame), only when the consumed object is the last holder"],
+    },
+    "C08": {
+        "jobs": [OBJ_CASTS],
+        "accept": lambda job, cls, site, msg: cls.startswith("cast.") or ("!(" in site and cls.startswith("obj.")) or cls.startswith("crash.") or cls == "layout.optional_words",
+        "real": OBJ_REAL, "stub": OBJ_STUB, "assumptions": OBJ_ASSUME + ["the property asks for exhaustive enumeration of a finite matrix; this family samples, and reports the matrix cells (group x enabled set x requested set x operation x container) actually hit: 1640 exist for the corpus groups"],
+    },
+    "C13": {
+        "jobs": [OBJ_INTRES],
+        "accept": lambda job, cls, site, msg: (cls in ("obj.result_mismatch", "obj.args_altered", "obj.call_count") and ("ir_" in site or "ira_" in site or "m_res" in site)) or cls.startswith("intres."),
+        "real": OBJ_REAL + ["cglue::result (IntError impls, into_int_out_result, from_int_result)"], "stub": OBJ_STUB, "assumptions": OBJ_ASSUME,
     },
 }
 
